@@ -5,6 +5,12 @@ sys.path.insert(0, '/verif/lib')
 import props
 
 LEVEL = {
+ "C15": ("Chain.tla states the interleaver as the index map of the statement, the deinterleaver as an independently written inverse map, and puncture / depuncture / rate on blocks. TLC checks for every (C, R, direction) "
+         "up to 5x5 (6x6) and every pattern up to length 4 (5) that interleave is a permutation obeying the formula, deinterleave inverts it, puncture keeps exactly the TRUE blocks in order and depuncture restores them with zeros; "
+         "a wrong inverse order is a negative configuration. The real Interleaver (u32, f64, GF2 element types) and Puncturer are bound by trace validation on tagged inputs: TLC recomputes every output index, and lengths that do not "
+         "fit must give an error, not a panic or a shorter vector.",
+         "TLC + Json/IOUtils; inputs are position tags.",
+         "TLA+ model checking of index maps + trace validation on tagged inputs", "5 C15"),
  "C18": ("Factory.tla derives the 36 documented implementations from the naming rule (24 arithmetic type names; HL prefix <=> layered; which arithmetics have a layered form) and TLC checks the table is a bijection of "
          "size 36. The real factory is bound by trace validation: every name's parse / Display / clap string, clap's value list as a set, ~360 near-miss strings that must be rejected, and a Table event in which TLC requires "
          "the fingerprint of each factory-built decoder on a seeded separating family to equal that of the generic decoder constructed directly from the named arithmetic type and schedule, and the 36 fingerprints to be pairwise distinct.",
